@@ -22,6 +22,7 @@ Definition max2 : N := Z.to_N codec_V2MaxPayloadBytes.
 Definition fCompressed : N := Z.to_N root_PFlagCompressed.
 Definition fEncrypted : N := Z.to_N root_PFlagEncrypted.
 Definition fError : N := Z.to_N root_PFlagError.
+Definition fMarshal : N := N.lor fCompressed fEncrypted.   (* PFlagCompressed|PFlagEncrypted *)
 Definition max_u8 : N := 255.      (* math.MaxUint8 *)
 Definition max_u16 : N := 65535.   (* math.MaxUint16 *)
 Definition default_thr1 : N := 4096.   (* NewV1Encoder: threshold <= 0 *)
@@ -317,7 +318,8 @@ Definition read_head_body_v2 (s : stream) : rhb (bytes * bytes) :=
   | (Panic, s1) => mkRhb Panic s1 [] [hs2]
   end.
 
-(* codecV1.UnmarshalPacket: fills [p]; the header accessors index up to h[13] *)
+(* codecV1.UnmarshalPacket: fills [p]; the header accessors index up to h[13]; the body is
+   unmarshalled when it is non-empty or the flag claims compression / encryption *)
 Definition unmarshal_v1 (has_dec : bool) (h b : bytes) (p : packet) : outcome packet :=
   if lenN h <? hs1 then Panic
   else
@@ -325,7 +327,7 @@ Definition unmarshal_v1 (has_dec : bool) (h b : bytes) (p : packet) : outcome pa
                        (p_typ p) (p_node p) (p_refers p) (p_body p) in
     let checksum := get32 (skipn 10 h) in
     if negb (calc_checksum_v1 h b =? checksum) then Err EChecksum
-    else if 0 <? lenN b then unmarshal_body has_dec b p1
+    else if (0 <? lenN b) || negb (N.land (p_flag p1) fMarshal =? 0) then unmarshal_body has_dec b p1
     else Ok p1.
 
 (* codecV2.UnmarshalPacket *)
@@ -351,7 +353,8 @@ Definition unmarshal_v2 (has_dec : bool) (h b : bytes) (p : packet) : outcome pa
           if lenN b <? pos then Panic      (* body[pos:] *)
           else
             let b' := dropN pos b in
-            if 0 <? lenN b' then unmarshal_body has_dec b' p2 else Ok p2
+            if (0 <? lenN b') || negb (N.land (p_flag p2) fMarshal =? 0)
+            then unmarshal_body has_dec b' p2 else Ok p2
       | Err e => Err e
       | Panic => Panic
       end.
